@@ -1,3 +1,5 @@
+//go:build go1.25
+
 package props
 
 // C17 — bigbuff.Worker: one running instance while held, stopped only after every holder is done.
